@@ -221,9 +221,13 @@ def run_path(prog, lib, h, prefix, timeout_ms, dump_smt=None):
                 if rr == z3.sat:
                     ex.solver.push()
                     ex.solver.add(neg)
-                    ex.solver.check()
-                    model = ex.solver.model()
+                    for _try in range(3):
+                        if ex.solver.check() == z3.sat:
+                            model = ex.solver.model()
+                            break
                     ex.solver.pop()
+                    if model is None:
+                        verdict = 'unknown'      # sat once, but no model could be extracted again: undecided, never a pass
             ms = (time.time() - t0) * 1000
             pr.obligations.append((label, verdict, ms))
             if verdict == 'sat' and hasattr(h, 'prefer'):
